@@ -320,7 +320,10 @@ func c05Gen_(c *core.Ctx) []oracle.Prog {
 	{
 		// depth 3 over the constructs whose header AND body own variables (jumps crossing >= 5 frames)
 		var deep []c05Construct
-		keep := map[string]bool{"for3-bodylocal": true, "range-bodylocal": true, "switch-caselocal": true, "block-shadow": true, "if-init-elseif": true, "switch-mixed-const-call-cases": true}
+		keep := map[string]bool{"for3-bodylocal": true, "range-bodylocal": true, "switch-caselocal": true, "block-shadow": true}
+		if c.Thorough() {
+			keep["if-init-elseif"], keep["switch-mixed-const-call-cases"] = true, true
+		}
 		for _, k := range all {
 			if keep[k.name] {
 				deep = append(deep, k)
@@ -347,7 +350,7 @@ func init() {
 	registerDiff(&diffSpec{
 		ID: "C05",
 		Rule: "all nestings (construct, hole)^d of 38 control constructs (if/else-if/init, 4 for forms, 13 range forms (incl. assignment to existing variables, key modified by the body), 7 switch forms incl. fallthrough/default positions/>=5 cases, 2 type switches, 2 selects, block, backward goto, func literal) " +
-			"for d=1,2, d=3 over the 6 constructs whose header and body both own variables (thorough: also d=3 over 11 further constructs) × every jump/plain leaf valid at the innermost hole (trace point, assignment, [conditional] break/continue, labelled break/continue to every enclosing target, [conditional] return); " +
+			"for d=1,2, d=3 over the 4 (thorough 6) constructs whose header and body both own variables (thorough: also d=3 over 11 further constructs) × every jump/plain leaf valid at the innermost hole (trace point, assignment, [conditional] break/continue, labelled break/continue to every enclosing target, [conditional] return); " +
 			"each program records a trace of executed points and final variables; non-trivial = distinct (program, Go trace) pairs whose trace has at least two points",
 		Gen: c05Gen_,
 		// classic subset: no type switches on non-default kinds, no select/goroutine constructs
